@@ -203,3 +203,4 @@ OBLIGATIONS.append(Obl("len_forms", len_forms, {"n": I(0, 2 ** 40), "pad": I(0, 
 
 # quick tier: entries added for other properties' sake run in the thorough tier only here
 demote(OBLIGATIONS, ['set_chx', 'seq_hitags', 'seq_hitags.E', 'seq_wide', 'seq_optnull', 'seqof_choice_cons'])
+demote(OBLIGATIONS, ['set_optc', 'seq_defl', 'seq_any_def'])
